@@ -152,6 +152,30 @@ func genProve(t *rapid.T) proveCase {
 	return proveCase{seed, h.Bytes(t, "alpha", 0, 100)}
 }
 
+// every alpha length 0..520: the hash input of try-and-increment is suite || 0x01 || key || alpha || ctr || 0x00;
+// a buffer of any fixed size holding it is exactly full for one length
+func TestEveryAlphaLength(t *testing.T) {
+	h.RunEnum(t, h.Enum[proveCase]{
+		Prop: "C18", Name: "prove-every-alpha-length-0..520",
+		Rule: "complete enumeration of alpha lengths 0..520 (pattern seed and alpha): Prove = independent RFC 9381 proof byte for byte, Verify accepts it with the reference hash (the full prove case); all non-trivial",
+		Each: func(yield func(proveCase) bool) {
+			for n := 0; n <= 520; n++ {
+				seed, alpha := make(h.B, 32), make(h.B, n)
+				for i := range seed {
+					seed[i] = byte(n*5 + i*3)
+				}
+				for i := range alpha {
+					alpha[i] = byte(i*13 + n)
+				}
+				if !yield(proveCase{seed, alpha}) {
+					return
+				}
+			}
+		},
+		Check: checkProve,
+	})
+}
+
 func TestProve(t *testing.T) {
 	h.Run(t, h.Sub[proveCase]{
 		Prop: "C18", Name: "prove", N: 600,
@@ -247,6 +271,28 @@ func checkVerify(c verifyCase) (h.Info, error) {
 		wb, _ := ref.ProofToHash(c.Pi)
 		if hb := p.Hash(); !bytes.Equal(hb, wb) {
 			return info, fmt.Errorf("Proof.Hash = %x, reference %x", hb, wb)
+		}
+		// the decoded proof is a value of its own: the caller's input buffer is wiped / reused after
+		// decoding (SetBytes and UnmarshalBinary), and the bytes handed out by Bytes() are overwritten by
+		// the caller; the proof still encodes to the original 80 bytes and hashes the same
+		buf := append([]byte{}, c.Pi...)
+		var p2, p3 vrf.Proof
+		if _, e2 := p2.SetBytes(buf); e2 == nil && p3.UnmarshalBinary(buf) == nil {
+			for i := range buf {
+				buf[i] = 0xee
+			}
+			for name, q := range map[string]*vrf.Proof{"SetBytes": &p2, "UnmarshalBinary": &p3} {
+				if got := q.Bytes(); !bytes.Equal(got, c.Pi) || !bytes.Equal(q.Hash(), wb) {
+					return info, fmt.Errorf("a proof decoded with %s(%x) encodes to %x and hashes to %x after the caller overwrote the buffer it was decoded from (want the same 80 bytes and %x)", name, []byte(c.Pi), got, q.Hash(), wb)
+				}
+				first := q.Bytes()
+				for i := range first {
+					first[i] ^= 0x77
+				}
+				if mb, merr := q.MarshalBinary(); merr != nil || !bytes.Equal(mb, c.Pi) || !bytes.Equal(q.Bytes(), c.Pi) {
+					return info, fmt.Errorf("a proof decoded with %s(%x): after the caller overwrote the slice returned by Bytes(), MarshalBinary = %x, %v and Bytes() = %x", name, []byte(c.Pi), mb, merr, q.Bytes())
+				}
+			}
 		}
 	}
 	hb, herr := vrf.ProofToHash(append([]byte{}, c.Pi...))
